@@ -150,7 +150,7 @@ func (a *An) smpTable(rule string) {
 	if f := a.MustFn("(smpMessageAbort).receivedMessage"); f != nil {
 		n := 0
 		for _, st := range a.DirectStoresTo(a.MustField("smp", "state")) {
-			if st.Parent() == f {
+			if a.C.within(st, f) {
 				n++
 				a.TermIs(rule, "abort-tlv|reset", "state after a received abort", st, st.Val, "make(smpStateExpect1)")
 			}
@@ -372,7 +372,7 @@ func (a *An) smpUserCalls(rule string) {
 	if f := a.MustFn("(*Conversation).restartSMP"); f != nil {
 		n := 0
 		for _, st := range a.DirectStoresTo(a.MustField("smp", "state")) {
-			if st.Parent() == f {
+			if a.C.within(st, f) {
 				n++
 				R.Check(a.smpStateOf(&Path{}, st.Val, 0) == "smpStateExpect1", rule, "AbortAuthentication|reset", "a user abort resets to EXPECT1", a.C.InstrPos(st), "stores "+a.C.Term(st.Val))
 			}
